@@ -118,7 +118,7 @@ func candidates(pattern string, maxLen int) []string {
 		alpha['\u017f'], alpha['\u212a'], alpha['S'], alpha['K'] = true, true, true, true
 	}
 	for _, r := range pattern {
-		if r >= 'a' && r <= 'z' || r >= '0' && r <= '9' || r == 'A' {
+		if r >= 'a' && r <= 'z' || r >= '0' && r <= '9' || r == 'A' || r == '$' || r == '^' || (r >= 0x80 && r != 0xFFFD) {
 			alpha[r] = true
 		}
 	}
@@ -156,6 +156,8 @@ var c11Patterns = []string{
 	"^[^\\s\\S]$", "^a[^\\w\\W]$", "^[^\\x00-\\x{10FFFF}](a|b)$", "^[^\\d\\D]b$", "^(a|[^\\s\\S])$", "^([^\\s\\S])$", "^a[^\\s\\S]?$",
 	// small negated classes: what is left includes the line feed; single folded letters with three case variants
 	"^[^\\S]$", "^[^\\S\\t]$", "^a[^\\S ]$", "^[^\\x00-\\x09\\x0b-\\x{10FFFF}]$", "^[^\\S]b$", "(?i)^s$", "(?i)^k$", "^(?i:s)$", "^[sS]$", "^[kK]$", "(?i)^ǅ$", "^[^\\D1-9]$",
+	// class members and single-rune alternatives in U+0080..U+00FF and just above; doubled and inner anchors
+	"^[éè]$", "^(ü|ö)$", "^[\\x{80}-\\x{82}]$", "^[\\x{FE}-\\x{101}]$", "^a[ÿĀ]$", "^[é]$", "^a$$", "^^a$", "^a^$", "^$a$", "^a$b$", "^(a$)$",
 }
 
 func c11Exact(o *out, p string) {
